@@ -94,7 +94,8 @@ async def _scenario(sc):
 def resolve(m, callers):
     """('res', ('caller', k), tok) -> concrete id"""
     if m[0] in ("res", "err", "req", "batch") and m[1][0] == "caller":
-        return (m[0], ("str", callers[m[1][1]][0])) + tuple(m[2:])
+        cid = callers[m[1][1]][0]
+        return (m[0], ("int" if isinstance(cid, int) else "str", cid)) + tuple(m[2:])
     return m
 
 
@@ -115,6 +116,20 @@ def gen(ctx):
                         arr.append((tset[pos], ("res", ("caller", k), 100 + k)))
                     arr.sort(key=lambda x: x[0])
                     out.append({"callers": [(names[k], 300) for k in range(n)], "arrivals": arr})
+    # ids that differ only in their JSON type ("7" vs 7), and other near-collisions
+    for twins in (["7", 7], [7, "7"], ["10", 10, "010"], ["a", "a ", "A"], ["-1", -1]):
+        n = len(twins)
+        for perm in itertools.permutations(range(n)):
+            for tset in ([1] * n, list(range(1, n + 1)), [49, 50, 51][:n]):
+                for late in (False, True):
+                    arr = [(tset[pos], ("res", ("caller", k), 100 + k)) for pos, k in enumerate(perm)]
+                    arr.sort(key=lambda x: x[0])
+                    callers = [(twins[k], 300) for k in range(n)]
+                    if late:
+                        # the first answered caller's deadline has already passed when its answer arrives
+                        callers[perm[0]] = (twins[perm[0]], 30)
+                        arr = [(t + 40, m) for t, m in arr]
+                    out.append({"callers": callers, "arrivals": arr})
     for _ in range(ctx.budget(300, 6000)):
         n = rng.choice((2, 3, 4))
         callers = [(names[k], rng.choice((60, 100, 300))) for k in range(n)]
@@ -191,7 +206,7 @@ def explore(ctx, model, spec):
             # which waiter dequeued caller k's first answer?
             cid = sc["callers"][k][0]
             first = next((n for n, (t, m) in enumerate(sc["arrivals"])
-                          if m[0] in ("res", "err") and resolve(m, sc["callers"])[1] == ("str", cid)), None)
+                          if m[0] in ("res", "err") and resolve(m, sc["callers"])[1] == ("int" if isinstance(cid, int) else "str", cid)), None)
             taker = next((j for j, n in log if n == first), None)
             ctx.count("lost-response")
             if taker is not None and taker != k:
@@ -201,6 +216,70 @@ def explore(ctx, model, spec):
                 ctx.spec_violation("response-dequeued-by-addressee-but-not-returned", case, f"caller {k}: {outs[k]}")
             else:
                 ctx.spec_violation("response-never-dequeued-although-sent-in-time", case, f"caller {k}: {outs[k]}")
+
+
+async def _stdio_burst(n_callers, burst, order):
+    """n callers on the real StdioClient's (read, write) pair over a scripted child; the child answers each request
+    after writing `burst` unrelated notifications, all in ONE chunk, in the given order of callers."""
+    import json as _json
+    from fakeproc import FakeProcess, patched_open_process
+    from chuk_mcp.transports.stdio.stdio_client import stdio_client
+    from chuk_mcp.transports.stdio.parameters import StdioParameters
+    sm = importlib.import_module("chuk_mcp.protocol.messages.send_message")
+    proc = FakeProcess()
+    outs = [None] * n_callers
+    with patched_open_process(proc):
+        async with stdio_client(StdioParameters(command="fake-child", args=[])) as (r, w):
+            async def caller(k):
+                try:
+                    res = await sm.send_message(r, w, "tools/call", {"k": k}, timeout=4.0, message_id=f"c{k}")
+                    outs[k] = ("ret", res.get("tok") if isinstance(res, dict) else None)
+                except TimeoutError:
+                    outs[k] = ("timeout",)
+                except Exception as e:
+                    outs[k] = ("exc", type(e).__name__)
+
+            async def child():
+                # wait until every request line has reached the child's stdin
+                while proc.stdin.data().count(b"\n") < n_callers:
+                    await anyio.sleep(0.01)
+                chunk = b""
+                for k in order:
+                    for i in range(burst):
+                        chunk += (_json.dumps({"jsonrpc": "2.0", "method": "notifications/message",
+                                               "params": {"level": "info", "data": i}}) + "\n").encode()
+                    chunk += (_json.dumps({"jsonrpc": "2.0", "id": f"c{k}", "result": {"tok": 100 + k}}) + "\n").encode()
+                proc.stdout.feed(chunk)
+
+            async with anyio.create_task_group() as tg:
+                for k in range(n_callers):
+                    tg.start_soon(caller, k)
+                tg.start_soon(child)
+            proc.stdout.close()
+    return outs
+
+
+def check_transport_bursts(ctx):
+    """Nothing is lost in front of the waiters either: a burst of unrelated traffic written ahead of the response
+    (more than the 100-slot stream buffer) must not cost a single outstanding request - or callers answered in
+    caller order - their response."""
+    bursts = [0, 5, 99, 100, 101, 150] + ([250, 1000] if (ctx.thorough or ctx.escalated) else [])
+    for n_callers, order in ((1, [0]), (2, [0, 1]), (3, [0, 1, 2])):
+        for burst in (bursts if n_callers == 1 else [0]):
+            # with several callers, interleaved unrelated traffic rotates the waiters and triggers the KNOWN
+            # discard finding (classified above with the recorded delivery log); here only situations in which the
+            # unmodified library loses nothing: one outstanding request, or answers in caller order with no traffic
+            outs = vrun(_stdio_burst, n_callers, burst, order)
+            case = {"via": "StdioClient", "callers": n_callers, "burst_before_each_response": burst, "order": order}
+            ctx.case(case, nontrivial=True)
+            ctx.count("stdio-burst:" + ("over-buffer" if burst > 100 else "within-buffer"))
+            ctx.spec_total += 1
+            want = [("ret", 100 + k) for k in range(n_callers)]
+            if outs != want:
+                lost = [k for k, o in enumerate(outs) if o != want[k]]
+                klass = "response-lost-behind-burst-in-transport" if all(outs[k][0] == "timeout" for k in lost) \
+                    else "wrong-result-behind-burst-in-transport"
+                ctx.spec_violation(klass, case, f"callers {lost} got {[outs[k] for k in lost]}")
 
 
 def run(ctx):
@@ -215,18 +294,28 @@ def run(ctx):
     if ctx.broken_obligations:
         ctx.escalated = True
     explore(ctx, model, spec)
+    check_transport_bursts(ctx)
     if ctx.thorough:
         lib.coqchk(ctx, "C18")
-    ctx.rule = ("2-4 real send_message tasks on one stream pair under a virtual clock: every permutation of the answer order x 5 timing "
+    ctx.rule = ("(a) 2-4 real send_message tasks on one stream pair under a virtual clock: every permutation of the answer order x 5 timing "
                 "patterns around the 0.5 s poll boundary x with/without interleaved notifications (exhaustive), plus seeded mixtures "
                 "with errors, foreign responses, same-id server requests and per-caller deadlines; the recorded delivery log is replayed "
-                "through the model; distinct = distinct scenario dicts")
+                "through the model; caller ids incl. twins that differ only in JSON type (\"7\" vs 7) with late answers; "
+                "(b) 1-3 callers through the real StdioClient over a scripted child with bursts of 0..150 (thorough: 1000) unrelated "
+                "notifications written ahead of each response in one chunk; distinct = distinct scenario dicts")
     return lib.finish(ctx, TRUSTED, ASSUME)
 
 
 def replay(ctx, data):
     spec = lib.Driver("C18Spec")
     c = data["case"]
+    if c.get("via") == "StdioClient":
+        outs = vrun(_stdio_burst, c["callers"], c["burst_before_each_response"], c["order"])
+        want = [("ret", 100 + k) for k in range(c["callers"])]
+        if outs != want:
+            ctx.spec_violation("response-lost-behind-burst-in-transport", c, f"{outs}")
+            print("REPRODUCED", outs)
+        return 1 if outs != want else 0
     sc = {"callers": [tuple(x) for x in c["callers"]],
           "arrivals": [(t, tuple(tuple(x) if isinstance(x, list) else x for x in m)) for t, m in c["arrivals"]]}
     global gen
